@@ -84,7 +84,7 @@ func (self ValueAnyObject) Fields() (map[string]*Value, *Interrupt) {
 			if !found {
 				return nil, NewRuntimeErr(fmt.Sprintf("Value of type 'any-object' has no field named '%s'", key), IndexOutOfBoundsErrorKind, span)
 			}
-			return NewValueString((*value).Kind().String()), nil
+			return NewValueString((*value).Kind().TypeKind().String()), nil
 		}),
 		"keys": NewValueBuiltinFunction(func(executor Executor, cancelCtx *context.Context, span errors.Span, args ...Value) (*Value, *Interrupt) {
 			rawKeys := make([]string, 0)
